@@ -298,15 +298,22 @@ async fn process_bufs(
     if !bufs.is_empty() {
         let bufs_arc = sync::Arc::new(bufs);
         let bufs_arc2 = bufs_arc.clone();
+        // Streaming to a `log tail` listener is optional: if the listener has gone
+        // away, that must not change the outcome of the task or its stored logs.
         let lsc_fut = async {
-            if let Some(ref mut lsc) = log_stream_client {
-                lsc.data(bufs_arc2, header.as_bytes()).await
-            } else {
-                Ok(())
+            match log_stream_client {
+                Some(lsc) => {
+                    Ok::<bool, MonorailError>(lsc.data(bufs_arc2, header.as_bytes()).await.is_ok())
+                }
+                None => Ok(true),
             }
         };
         let cc_fut = async { compressor_client.data(bufs_arc).await };
-        let (_, _) = tokio::try_join!(lsc_fut, cc_fut)?;
+        let (streaming, _) = tokio::try_join!(lsc_fut, cc_fut)?;
+        if !streaming {
+            debug!("Log stream listener lost, streaming disabled");
+            *log_stream_client = None;
+        }
     }
     if should_end {
         compressor_client.end().await?;
